@@ -100,6 +100,13 @@ def check(rep):
             for n, ok in N_VALUES:
                 add(f"{k}(x, n={n!r})", "C16.params", k, [x], {"n": n}, ok, ["n"], {"n": ("int", int(n))} if ok else None)
                 add(f"{k}(x, {n!r})", "C16.params", k, [x, n], {}, ok, ["n"], {"n": ("int", int(n))} if ok else None)
+            # the validation may not depend on what the operand is (e.g. a node of the same class)
+            for inner, il in (((k, x, 2), f"{k}(x, 2)"), ((k, x, 4), f"{k}(x, 4)"), (("Negation", x), "Negation(x)"),
+                              (("NthRoot" if k == "NthPower" else "NthPower", x, 2), "the inverse node")):
+                for n, ok in N_VALUES:
+                    if isinstance(n, (int, float)) and not isinstance(n, bool) and abs(n) < 1e6:
+                        add(f"{k}({il}, n={n!r})", "C16.params", k, [inner], {"n": n}, ok, ["n"],
+                            {"n": ("int", int(n))} if ok else None)
         elif k in ("Exponential", "Logarithm"):
             for fl, fv in FOREIGN:
                 add(f"{k}({fl})", "C16.operands", k, [fv], {}, False)
@@ -107,6 +114,9 @@ def check(rep):
             for b, ok in (EXP_BASES if k == "Exponential" else LOG_BASES):
                 want = {"base": ("num", b)} if ok else None
                 add(f"{k}(x, base={b!r})", "C16.params", k, [x], {"base": b}, ok, ["base"], want)
+                add(f"{k}({k}(x, 2), base={b!r})", "C16.params", k, [(k, x, 2)], {"base": b}, ok, ["base"], want)
+                other = "Logarithm" if k == "Exponential" else "Exponential"
+                add(f"{k}({other}(x, 2), base={b!r})", "C16.params", k, [(other, x, 2)], {"base": b}, ok, ["base"], want)
         elif k in spec.BINARY:
             add(f"{k}(<expression>, <expression>)", "C16.operands", k, [x, y], {}, True)
             for fl, fv in FOREIGN:
